@@ -1,12 +1,23 @@
 """C11 — quantized layers equal their Keras layer run on pre-quantized weights (drop-in).
 
-Per generated case (class x geometry x quantizer choice x exact-regime weights and inputs):
-  tie 1  real layer output            == concrete Lean model (drivers/C11.lean), bit for bit
-  tie 2  real layer output            == STOCK tf_keras layer with weights q_i(w_i), then the
+A generated GROUP is one quantized layer OBJECT (class x geometry x quantizer choice x exact-regime
+weights) together with the list of calls made on it; every call is a CASE:
+  tie 1  real layer output            == concrete Lean model (drivers/C11.lean: `objectCalls` of the
+                                         layer term over the whole history), bit for bit
+  tie 2  real layer output            == a FRESH STOCK tf_keras layer with weights q_i(w_i), then the
                                          activation quantizer (the property's own oracle, evaluated
                                          on the real code), bit for bit
   tie 3  layer.get_quantizers()       == the model's list, entry by entry
   no-quantizer clause: nothing configured -> output == stock layer on the raw weights.
+Streams:
+  structured  one call per fresh object (the class x geometry x quantizer grid)
+  reuse       ONE object called 2-4 times on inputs of different batch / spatial / time size / rank,
+              eagerly one after the other or shared between the branches of a functional model
+  format      every class under `K.set_image_data_format('channels_first')`, in the three orders
+              (switch -> construct -> call, construct -> switch -> call, construct under
+              channels_first -> switch back -> call), x the layer's own data_format (None / both values)
+  rank        ranks beyond the minimum, batch 1, spatial dims of size 1, stride > kernel, dilation
+              with `same` padding, 1-D layers in both data formats
 `*Transpose` layers do not run in this sandbox and are not generated.
 """
 from fractions import Fraction as F
@@ -58,6 +69,15 @@ SLOTS = {"dense": ["kernel", "bias"], "conv1d": ["kernel", "bias"], "conv2d": ["
          "avgpool2d": ["average"], "globalavgpool2d": ["average"], "activation": [],
          "simplernn": ["kernel", "recurrent", "bias", "state"], "lstm": ["kernel", "recurrent", "bias", "state"],
          "gru": ["kernel", "recurrent", "bias", "state"]}
+RNN = ("simplernn", "lstm", "gru")
+DEFAULT_FMT = "channels_last"
+FMTS0 = (DEFAULT_FMT, DEFAULT_FMT)
+# classes with a `data_format` constructor argument and its DEFAULT in the QUANTIZED class (the harness' model of
+# the constructor signatures): QConv1D and QConv2D have the literal "channels_last", every other one None =
+# `K.image_data_format()` at construction time.  The stock classes: Conv1D "channels_last", all others None —
+# QConv2D differs (recorded finding C11-qconv2d-default-data-format).
+HAS_DF = {"conv1d": "channels_last", "conv2d": "channels_last", "sepconv1d": None, "sepconv2d": None, "dwconv2d": None,
+          "avgpool2d": None, "globalavgpool2d": None}
 
 
 def tj(a):
@@ -76,9 +96,6 @@ def model_tensor(o):
 def dy(rng, shape, den, lo, hi):
   """short dyadics k/den, k in [lo, hi]"""
   return (rng.integers(lo, hi + 1, size=shape).astype(np.float32) / np.float32(den)).astype(np.float32)
-
-
-_QCACHE = {}
 
 
 def fresh_q(s, trainable=False):
@@ -134,59 +151,109 @@ def rnd32(fr):
   return sgn * fl * F(2) ** e
 
 
-# ----------------------------------------------------------------------------- case generation
+# ----------------------------------------------------------------------------- groups and cases
 
 class Case:
-  def __init__(self, cls, geo, q, stream="structured"):
-    self.cls, self.geo, self.q, self.stream = cls, geo, q, stream
+  """one call of a layer object"""
+
+  def __init__(self, group, pos, geo):
+    self.group, self.pos, self.geo = group, pos, geo
+    self.cls, self.q, self.stream = group.cls, group.q, group.stream
     self.err = None
+    self.line_off, self.line_pos = 0, pos   # which driver line of the group / which call of that line
     self.impl = None        # list of np arrays (outputs)
     self.oracle = None      # same, from the stock layer
     self.stock_raw = None   # stock layer on the raw weights (no-quantizer clause)
-    self.reported = None
-    self.line = None
-    self.W = None
+    self.x = None
 
   @property
   def label(self):
-    return "%s %s %s" % (self.cls, json.dumps(self.geo, sort_keys=True), json.dumps(self.q, sort_keys=True))
+    G = self.group
+    extra = ""
+    if G.stream != "structured":
+      extra = " [%s #%d call %d/%d %s fmt=%s/%s forms=%s%s]" % (
+          G.stream, G.gid, self.pos + 1, len(G.cases), G.mode, G.fmts[0][9:], G.fmts[1][9:],
+          json.dumps(G.forms, sort_keys=True),
+          "" if G.reweigh is None else " set_weights before call %d" % (G.reweigh + 1))
+    return "%s %s %s%s" % (self.cls, json.dumps(self.geo, sort_keys=True), json.dumps(self.q, sort_keys=True), extra)
+
+
+class Group:
+  """one layer OBJECT and the calls made on it.
+  geo: the constructor-level geometry (+ per-call dims for single-call groups); calls: per-call dims;
+  mode: 'eager' (successive calls) | 'functional' (one shared layer on the branches of a functional model) |
+        'dynamic' (one functional model with spatial / time dims None, called on every input in turn);
+  fmts: (K.image_data_format() while constructing, ... while calling);
+  forms: argument forms {'q': 'string'|'object'|'used', 'ksz': 'asis'|'tuple'|'list'|'int', 'x': 'tensor'|'numpy'|'variable',
+         'training': absent | True | False (the `training=` keyword of the call)}"""
+  _n = 0
+
+  def __init__(self, cls, geo, q, calls=None, stream="structured", mode="eager", fmts=FMTS0, forms=None,
+               reweigh=None):
+    self.cls, self.geo, self.q, self.stream, self.mode, self.fmts = cls, geo, q, stream, mode, tuple(fmts)
+    self.forms = dict(forms or {})
+    self.reweigh = reweigh      # eager histories: `set_weights(new values)` right before the call of this index
+    self.gid = Group._n
+    Group._n += 1
+    self.cases = [Case(self, i, dict(geo, **d)) for i, d in enumerate(calls or [{}])]
+    self.reported = None
+    self.lines = []
+    self.W = None
+    self.mask = None
+    self.df = None
+    self.ctor_df = None
+    self.skip = False
 
 
 def pick(rng, lst):
   return lst[int(rng.integers(0, len(lst)))]
 
 
+def qsel(rng, slots, i, force_none=False, auto=False):
+  q = {}
+  for j, s in enumerate(slots):
+    if force_none:
+      q[s] = None
+    elif s == "bias":
+      q[s] = BQ[(i + j) % len(BQ)] if rng.random() < 0.7 else pick(rng, BQ)
+    elif s == "state":
+      q[s] = SQ[(i // 2) % len(SQ)]
+    elif s == "average":
+      q[s] = AVGQ[i % len(AVGQ)] if i % 5 else None
+    else:
+      q[s] = WQ[(i + 2 * j) % len(WQ)] if rng.random() < 0.7 else pick(rng, WQ)
+  if auto and not force_none:
+    q[slots[0]] = AUTO
+  q["act"] = None if force_none else ACT[i % len(ACT)]
+  if "average" in q and q["average"] is None:
+    q["act"] = None       # the stock average is not exact in float32: nothing non-linear after it
+  return q
+
+
+def rnn_q(rng, cls, i, rep, hard, force_none=False):
+  q = qsel(rng, SLOTS[cls], i, force_none=force_none)
+  if hard and q["state"] is None:
+    q["state"] = SQ[0]            # un-quantized activations only with a state quantizer (bit growth)
+  q["act"] = "hard_tanh" if hard else ["quantized_tanh(4)", "quantized_tanh(3,symmetric=1)"][i % 2]
+  q["ract"] = "hard_sigmoid" if hard else ["quantized_sigmoid(4)", "quantized_sigmoid(3)"][(i // 2) % 2]
+  return q
+
+
 def gen_cases(rng, tier):
+  """the structured grid: one call per fresh object"""
   n = 2 if tier == "quick" else 6
   cases = []
 
-  def qsel(slots, i, force_none=False, auto=False):
-    q = {}
-    for j, s in enumerate(slots):
-      if force_none:
-        q[s] = None
-      elif s == "bias":
-        q[s] = BQ[(i + j) % len(BQ)] if rng.random() < 0.7 else pick(rng, BQ)
-      elif s == "state":
-        q[s] = SQ[(i // 2) % len(SQ)]
-      elif s == "average":
-        q[s] = AVGQ[i % len(AVGQ)] if i % 5 else None
-      else:
-        q[s] = WQ[(i + 2 * j) % len(WQ)] if rng.random() < 0.7 else pick(rng, WQ)
-    if auto and not force_none:
-      q[slots[0]] = AUTO
-    q["act"] = None if force_none else ACT[i % len(ACT)]
-    if "average" in q and q["average"] is None:
-      q["act"] = None       # the stock average is not exact in float32: nothing non-linear after it
-    return q
+  def Case1(cls, geo, q):
+    return Group(cls, geo, q)
 
   # ---- dense
   for i in range(10 * n):
     geo = dict(units=1 + i % 4, use_bias=bool(i % 3), in_dim=2 + i % 3, rank=2 + (i % 2), batch=1 + i % 2)
-    cases.append(Case("dense", geo, qsel(SLOTS["dense"], i, force_none=(i % 10 == 9), auto=(i % 10 == 4))))
+    cases.append(Case1("dense", geo, qsel(rng, SLOTS["dense"], i, force_none=(i % 10 == 9), auto=(i % 10 == 4))))
   # ---- activation layer
   for i, a in enumerate(["quantized_relu(4,1)", "quantized_bits(6,2,1)", "quantized_tanh(4)", "quantized_sigmoid(4)"]):
-    cases.append(Case("activation", dict(shape=[2, 3, 2]), {"act": a}))
+    cases.append(Case1("activation", dict(shape=[2, 3, 2]), {"act": a}))
   # ---- conv1d: every (padding, stride/dilation) cell, kernel 1..3, groups
   i = 0
   for pad in ("valid", "same", "causal"):
@@ -197,7 +264,7 @@ def gen_cases(rng, tier):
           geo = dict(filters=(2 if groups == 2 and i % 8 == 3 else 4) if groups == 2 else 1 + i % 4, kernel=k,
                      strides=st, padding=pad, dilation=dl, groups=groups, use_bias=bool((i + 1) % 3),
                      length=6 + i % 2, cin=4 if groups == 2 else 2 + i % 2, batch=1 + i % 2)
-          cases.append(Case("conv1d", geo, qsel(SLOTS["conv1d"], i, force_none=(i % 9 == 8), auto=(i % 9 == 4))))
+          cases.append(Case1("conv1d", geo, qsel(rng, SLOTS["conv1d"], i, force_none=(i % 9 == 8), auto=(i % 9 == 4))))
           i += 1
   # ---- conv2d
   i = 0
@@ -211,7 +278,7 @@ def gen_cases(rng, tier):
                      padding=pad, dilation=list(dl), groups=groups, use_bias=bool((i + 1) % 3),
                      hw=[5 + i % 2, 6 - i % 2], cin=4 if groups == 2 else 1 + i % 3, batch=1 + (i % 3 == 0),
                      data_format=df, mask=bool(i % 6 == 2))
-          cases.append(Case("conv2d", geo, qsel(SLOTS["conv2d"], i, force_none=(i % 11 == 10), auto=(i % 11 == 5))))
+          cases.append(Case1("conv2d", geo, qsel(rng, SLOTS["conv2d"], i, force_none=(i % 11 == 10), auto=(i % 11 == 5))))
           i += 1
   # ---- separable 1d
   i = 0
@@ -221,7 +288,7 @@ def gen_cases(rng, tier):
         for rep in range(n):
           geo = dict(filters=1 + i % 4, kernel=k, strides=st, padding=pad, dilation=dl, depth_multiplier=1 + i % 2,
                      use_bias=bool((i + 2) % 3), length=6 + i % 2, cin=1 + i % 3, batch=1 + i % 2)
-          cases.append(Case("sepconv1d", geo, qsel(SLOTS["sepconv1d"], i, force_none=(i % 9 == 8), auto=(i % 9 == 3))))
+          cases.append(Case1("sepconv1d", geo, qsel(rng, SLOTS["sepconv1d"], i, force_none=(i % 9 == 8), auto=(i % 9 == 3))))
           i += 1
   # ---- separable 2d / depthwise 2d
   i = 0
@@ -233,7 +300,7 @@ def gen_cases(rng, tier):
             geo = dict(filters=1 + i % 4, kernel=list(k), strides=list(st), padding=pad, dilation=list(dl),
                        depth_multiplier=1 + i % 2, use_bias=bool((i + 2) % 3), hw=[5 + i % 2, 6 - i % 2],
                        cin=1 + i % 3, batch=1 + (i % 3 == 0))
-            cases.append(Case(cls, geo, qsel(SLOTS[cls], i, force_none=(i % 9 == 8), auto=(i % 9 == 3))))
+            cases.append(Case1(cls, geo, qsel(rng, SLOTS[cls], i, force_none=(i % 9 == 8), auto=(i % 9 == 3))))
             i += 1
   # ---- pooling
   i = 0
@@ -244,19 +311,19 @@ def gen_cases(rng, tier):
           geo = dict(pool=list(pool), strides=None if st is None else list(st), padding=pad,
                      hw=[5 + i % 2, 6], cin=1 + i % 3, batch=1 + i % 2,
                      data_format="channels_first" if i % 6 == 5 else "channels_last")
-          cases.append(Case("avgpool2d", geo, qsel(SLOTS["avgpool2d"], i)))
+          cases.append(Case1("avgpool2d", geo, qsel(rng, SLOTS["avgpool2d"], i)))
           i += 1
   for i in range(12 * n):
     geo = dict(hw=[2 + i % 3, 2 + (i // 3) % 3], cin=1 + i % 3, batch=1 + i % 2, keepdims=bool(i % 4 == 1),
                data_format="channels_first" if i % 5 == 4 else "channels_last")
-    cases.append(Case("globalavgpool2d", geo, qsel(SLOTS["globalavgpool2d"], i)))
+    cases.append(Case1("globalavgpool2d", geo, qsel(rng, SLOTS["globalavgpool2d"], i)))
   # ---- scale shift
   for i in range(8 * n):
     geo = dict(use_bias=bool(i % 3), shape=[1 + i % 2, 3, 2 + i % 2])
-    cases.append(Case("scaleshift", geo, qsel(SLOTS["scaleshift"], i, force_none=(i % 8 == 7))))
+    cases.append(Case1("scaleshift", geo, qsel(rng, SLOTS["scaleshift"], i, force_none=(i % 8 == 7))))
   # ---- recurrent
   i = 0
-  for cls in ("simplernn", "lstm", "gru"):
+  for cls in RNN:
     impls = (1,) if cls == "simplernn" else (1, 2)
     ras = (False, True) if cls == "gru" else (False,)
     for impl in impls:
@@ -264,315 +331,771 @@ def gen_cases(rng, tier):
         for rep in range(8 * n if cls != "gru" else 7 * n):
           units = 1 + i % 3
           hard = (i % 4 == 2)
-          q = qsel(SLOTS[cls], i, force_none=(rep % 8 == 7))
-          if hard and q["state"] is None:
-            q["state"] = SQ[0]            # un-quantized activations only with a state quantizer (bit growth)
+          q = rnn_q(rng, cls, i, rep, hard, force_none=(rep % 8 == 7))
           if cls == "gru" and rep % 7 in (3, 6):
             q["recurrent"] = None          # no recurrent quantizer (site repaired in 32aca3c)
-          q["act"] = "hard_tanh" if hard else ["quantized_tanh(4)", "quantized_tanh(3,symmetric=1)"][i % 2]
-          q["ract"] = "hard_sigmoid" if hard else ["quantized_sigmoid(4)", "quantized_sigmoid(3)"][(i // 2) % 2]
           in_dim = units if (cls == "gru" and rep % 7 == 3) else 2 + i % 2
           geo = dict(units=units, in_dim=in_dim, steps=3 if not hard else 2, batch=2, use_bias=bool((i + 1) % 4),
                      impl=impl, reset_after=ra)
-          cases.append(Case(cls, geo, q))
+          cases.append(Case1(cls, geo, q))
           i += 1
   return cases
 
 
+def kext(k, d):
+  return (k - 1) * d + 1
+
+
+FORMS = [dict(q="string", ksz="asis", x="tensor"), dict(q="object", ksz="tuple", x="numpy", training=False),
+         dict(q="used", ksz="list", x="variable"), dict(q="string", ksz="int", x="numpy", training=True),
+         dict(q="object", ksz="asis", x="tensor"), dict(q="string", ksz="tuple", x="tensor", training=True),
+         dict(q="used", ksz="asis", x="numpy", training=False)]
+ORDERS = [("channels_first", "channels_first"), ("channels_last", "channels_first"), ("channels_first", "channels_last")]
+
+
+def conv1d_lengths(pad, k, d, j):
+  e = kext(k, d)
+  if pad == "valid":
+    return [[e + 2, e, e + 3], [e, e + 4, e + 1]][j % 2]
+  return [[5, 1, 2], [1, 6, 3]][j % 2]
+
+
+def conv2d_hws(pad, k, d, j):
+  eh, ew = kext(k[0], d[0]), kext(k[1], d[1])
+  if pad == "valid":
+    return [[[eh + 2, ew + 1], [eh, ew], [eh, ew + 3]], [[eh, ew + 1], [eh + 3, ew + 2], [eh + 1, ew]]][j % 2]
+  return [[[5, 4], [1, 1], [1, 4]], [[1, 3], [4, 5], [2, 1]]][j % 2]
+
+
+def gen_new(rng, tier):
+  """the reuse / format / rank streams (fixed counts; the seed only changes numbers and quantizer picks)"""
+  thorough = tier != "quick"
+  G = []
+  fi = [0]
+
+  def forms():
+    fi[0] += 1
+    return FORMS[fi[0] % len(FORMS)]
+
+  def add(cls, geo, q, calls, stream, mode="eager", fmts=FMTS0):
+    # every other eager history of a weighted class gets NEW weight values before its last call
+    rw = None
+    if stream == "reuse" and mode == "eager" and len(calls) > 1 and cls not in ("activation", "avgpool2d", "globalavgpool2d") \
+        and len(G) % 2 == 0:
+      rw = len(calls) - 1
+    G.append(Group(cls, geo, q, calls=calls, stream=stream, mode=mode, fmts=fmts, forms=forms(), reweigh=rw))
+
+  # ================================================================= reuse: histories on one object
+  reps = 3 if not thorough else 6
+  for j in range(reps):
+    mode = ("eager", "dynamic", "functional")[j % 3]
+    fb = 2  # functional models: one batch size on every branch
+    B = lambda b: fb if mode == "functional" else b   # noqa: E731
+    # `dynamic`: ONE functional model whose spatial / time dims are None, called on every input in turn
+    # (classes whose calls differ in rank stay eager)
+    emode = "eager" if mode == "dynamic" else mode
+    # ---- dense: ranks 2..5 on one object, input.shape[1] == units among them
+    u, ind = 2 + j % 3, 2 + (j + 1) % 3
+    shapes = [[[2, ind], [1, 3, ind], [2, u, ind], [1, 2, 2, 3, ind]], [[3, u, ind], [2, ind], [1, 2, u, ind]],
+              [[2, 3, ind], [2, u, 2, ind]]][j % 3]
+    add("dense", dict(units=u, use_bias=(j % 4 != 3), in_dim=ind), qsel(rng, SLOTS["dense"], j, auto=(j == 1)),
+        [dict(shape=s_) for s_ in shapes], "reuse", emode)
+    # ---- activation: ranks 1..5
+    shapes = [[[3], [2, 3], [1, 2, 2]], [[2, 1, 3, 2], [4], [1, 2, 1, 2, 2]], [[2, 3], [2, 2, 2, 1]]][j % 3]
+    add("activation", {}, {"act": ["quantized_relu(4,1)", "quantized_tanh(4)", "quantized_bits(6,2,1)"][j % 3]},
+        [dict(shape=s_) for s_ in shapes], "reuse", emode)
+    # ---- conv1d / sepconv1d
+    for cls in ("conv1d", "sepconv1d"):
+      pad = ("valid", "same", "causal")[(j + (cls == "sepconv1d")) % 3]
+      k, (st, dl) = 2 + j % 2, ((1, 1), (2, 1), (1, 2))[j % 3]
+      ls = conv1d_lengths(pad, k, dl, j)
+      geo = dict(filters=1 + (j + 1) % 3, kernel=k, strides=st, padding=pad, dilation=dl, use_bias=(j % 2 == 0), cin=2 + j % 2)
+      if cls == "conv1d":
+        geo["groups"] = 1
+      else:
+        geo["depth_multiplier"] = 1 + j % 2
+      add(cls, geo, qsel(rng, SLOTS[cls], j + 1, auto=(j == 2)),
+          [dict(length=l_, batch=B(b_)) for l_, b_ in zip(ls, (2, 1, 3))][:2 if mode == "functional" else 3], "reuse", mode)
+    # ---- conv2d / sepconv2d / dwconv2d
+    for ci, cls in enumerate(("conv2d", "sepconv2d", "dwconv2d")):
+      pad = ("valid", "same")[(j + ci) % 2]
+      k = [[2, 2], [3, 2], [1, 2]][(j + ci) % 3]
+      st, dl = (([1, 1], [1, 1]), ([2, 1], [1, 1]), ([1, 1], [2, 1]))[(j + ci) % 3]
+      hws = conv2d_hws(pad, k, dl, j)
+      geo = dict(kernel=k, strides=st, padding=pad, dilation=dl, use_bias=((j + ci) % 3 != 0), cin=1 + (j + ci) % 2)
+      if cls != "dwconv2d":
+        geo["filters"] = 1 + (j + ci) % 3
+      if cls == "conv2d":
+        geo.update(groups=1, mask=False)
+        if j % 3 == 1:
+          geo["data_format"] = "channels_first"
+      else:
+        geo["depth_multiplier"] = 1 + (j + ci + 1) % 2
+      add(cls, geo, qsel(rng, SLOTS[cls], j + ci + 2, auto=(j == ci)),
+          [dict(hw=h_, batch=B(b_)) for h_, b_ in zip(hws, (1, 2, 3))][:2 if mode == "functional" else 3], "reuse", mode)
+    # ---- average pooling: spatial size AND channel count change between calls
+    pool = [[2, 2], [2, 3], [3, 3]][j % 3]
+    pad = ("valid", "same")[j % 2]
+    hws = [[pool[0] + 2, pool[1] + 1], [pool[0], pool[1]], [pool[0] + 1, 2 * pool[1]]] if pad == "valid" else [[5, 6], [1, 1], [2, 3]]
+    geo = dict(pool=pool, strides=[None, [1, 1], [3, 3]][j % 3], padding=pad)
+    if j % 3 == 2:
+      geo["data_format"] = "channels_first"
+    add("avgpool2d", geo, qsel(rng, SLOTS["avgpool2d"], j + 1),
+        [dict(hw=h_, batch=B(b_), cin=2 if mode == "dynamic" else c_)
+         for h_, b_, c_ in zip(hws, (2, 1, 1), (2, 1, 3))][:2 if mode == "functional" else 3],
+        "reuse", mode)
+    # ---- global average pooling: the pool AREA changes between calls (and repeats)
+    hws = [[[3, 3], [3, 3], [6, 5], [2, 2]], [[1, 5], [4, 6], [2, 3], [1, 5]], [[4, 4], [8, 8]]][j % 3]
+    geo = dict(keepdims=(j % 2 == 1))
+    if j % 3 != 0:
+      geo["data_format"] = ("channels_last", "channels_first")[j % 2]
+    for qi in (1, 2 + j):     # always at least one quantized-reciprocal object per history shape
+      add("globalavgpool2d", geo, qsel(rng, SLOTS["globalavgpool2d"], qi),
+          [dict(hw=h_, batch=B(1 + (t + j) % 2), cin=2 if mode == "dynamic" else 1 + (t + j) % 3)
+           for t, h_ in enumerate(hws)], "reuse", mode)
+    # ---- scale shift
+    shapes = [[[2, 3], [1, 2, 2], [3, 1, 2, 2]], [[1, 4], [2, 2, 3], [2, 2]], [[2, 3], [2, 2, 2]]][j % 3]
+    add("scaleshift", dict(use_bias=(j % 2 == 0)), qsel(rng, SLOTS["scaleshift"], j),
+        [dict(shape=s_) for s_ in shapes], "reuse", emode)
+    # ---- recurrent layers: batch and number of time steps change between calls
+    for ci, cls in enumerate(RNN):
+      hard = (j + ci) % 3 == 2
+      geo = dict(units=1 + (j + ci) % 3, in_dim=2 + j % 2, use_bias=((j + ci) % 3 != 1), impl=1 + (j + ci) % 2 if cls != "simplernn" else 1,
+                 reset_after=(cls == "gru" and j % 2 == 1))
+      bt = [[(2, 3), (1, 2), (3, 1)], [(1, 1), (2, 3), (2, 2)], [(2, 2), (2, 3)]][j % 3]
+      if hard:
+        bt = [(b_, min(t_, 2)) for b_, t_ in bt]
+      add(cls, geo, rnn_q(rng, cls, j + ci, j, hard),
+          [dict(batch=B(b_), steps=t_) for b_, t_ in bt], "reuse", mode)
+
+  # ================================================================= format: the process-wide switch
+  i = 0
+  for oi, fm in enumerate(ORDERS):
+    for cls in ("dense", "activation", "scaleshift") + RNN:
+      i += 1
+      none = (i % 5 == 4)
+      if cls == "dense":
+        u, ind = 2 + oi, 2 + (i % 2)
+        geo = dict(units=u, use_bias=(oi != 1 or i % 2 == 0), in_dim=ind)
+        calls = [dict(shape=[2, u, ind]), dict(shape=[1, 2, 3, ind]), dict(shape=[3, ind])]
+        # twice: with and without bias, quantized and not
+        add(cls, dict(geo, use_bias=True), qsel(rng, SLOTS[cls], i, force_none=False), calls[:2], "format", fmts=fm)
+        add(cls, dict(geo, use_bias=True), qsel(rng, SLOTS[cls], i, force_none=True),
+            [dict(shape=[1, u, 2, ind]), dict(shape=[2, 4, ind])], "format", fmts=fm)
+        add(cls, dict(geo, use_bias=False), qsel(rng, SLOTS[cls], i + 1), calls[1:], "format", fmts=fm)
+      elif cls == "activation":
+        add(cls, {}, {"act": ACT[oi]}, [dict(shape=[2, 3, 2]), dict(shape=[1, 2, 2, 3])], "format", fmts=fm)
+      elif cls == "scaleshift":
+        add(cls, dict(use_bias=True), qsel(rng, SLOTS[cls], i, force_none=none),
+            [dict(shape=[2, 3, 2]), dict(shape=[1, 2, 2, 2])], "format", fmts=fm)
+      else:
+        for impl in ((1,) if cls == "simplernn" else (1, 2)):
+          geo = dict(units=1 + (i + impl) % 3, in_dim=2 + i % 2, use_bias=True, impl=impl,
+                     reset_after=(cls == "gru" and (oi + impl) % 2 == 0))
+          add(cls, geo, rnn_q(rng, cls, i + impl, oi, False, force_none=(oi == 2 and impl == 1)),
+              [dict(batch=2, steps=2), dict(batch=1, steps=3)], "format", fmts=fm)
+    for cls, dflt in HAS_DF.items():
+      for dfa in ("default", None, "channels_last", "channels_first"):
+        if dfa is None and not thorough and oi == 2:
+          continue
+        i += 1
+        none = (i % 6 == 5)
+        geo = {}
+        if dfa != "default":
+          geo["data_format"] = dfa
+        if cls in ("conv1d", "sepconv1d"):
+          pad = ("valid", "same", "causal")[i % 3]
+          k, (st, dl) = 1 + i % 3, ((1, 1), (2, 1), (1, 2))[(i // 3) % 3]
+          geo.update(filters=1 + i % 3, kernel=k, strides=st, padding=pad, dilation=dl, use_bias=(i % 4 != 3), cin=2 + i % 2)
+          geo.update(dict(groups=1) if cls == "conv1d" else dict(depth_multiplier=1 + i % 2))
+          ls = conv1d_lengths(pad, k, dl, i)
+          calls = [dict(length=ls[0], batch=2), dict(length=ls[1], batch=1)]
+        elif cls in ("conv2d", "sepconv2d", "dwconv2d"):
+          pad = ("valid", "same")[i % 2]
+          k = [[2, 2], [3, 2], [1, 2], [2, 3]][i % 4]
+          st, dl = (([1, 1], [1, 1]), ([2, 1], [1, 1]), ([1, 1], [2, 1]))[(i // 2) % 3]
+          geo.update(kernel=k, strides=st, padding=pad, dilation=dl, use_bias=(i % 4 != 3), cin=1 + i % 2)
+          if cls != "dwconv2d":
+            geo["filters"] = 1 + i % 3
+          geo.update(dict(groups=1, mask=(i % 5 == 0)) if cls == "conv2d" else dict(depth_multiplier=1 + i % 2))
+          hws = conv2d_hws(pad, k, dl, i)
+          calls = [dict(hw=hws[0], batch=1), dict(hw=hws[1], batch=2)]
+        elif cls == "avgpool2d":
+          pool = [[2, 2], [2, 3], [3, 3], [1, 2]][i % 4]
+          pad = ("valid", "same")[i % 2]
+          geo.update(pool=pool, strides=[None, [1, 1], [2, 1]][i % 3], padding=pad)
+          calls = [dict(hw=[pool[0] + 2, pool[1] + 2], batch=2, cin=2), dict(hw=[pool[0] + (pad == "same"), pool[1]], batch=1, cin=1)]
+        else:
+          geo.update(keepdims=(i % 2 == 1))
+          calls = [dict(hw=[2 + i % 3, 3], batch=2, cin=2), dict(hw=[4, 1 + i % 4], batch=1, cin=3)]
+        q = qsel(rng, SLOTS[cls], i, force_none=none, auto=(i % 7 == 3 and cls not in ("avgpool2d", "globalavgpool2d")))
+        if cls == "globalavgpool2d" and i % 2 == 0 and not none:
+          q["average"] = AVGQ[i % len(AVGQ)]
+        add(cls, geo, q, calls, "format", fmts=fm)
+
+  # ================================================================= rank: beyond the minimum / degenerate dims
+  i = 0
+  for r in (3, 4, 5):
+    for ub in (True, False):
+      for rep in range(1 if not thorough else 3):
+        i += 1
+        u, ind = 2 + (i % 3), 2 + i % 2
+        shape = [[1 + i % 2, u, ind], [1, u, 2, ind], [1 + i % 2, u, 1, 2, ind]][r - 3]
+        add("dense", dict(units=u, use_bias=ub, in_dim=ind), qsel(rng, SLOTS["dense"], i, force_none=(i % 6 == 5)),
+            [dict(shape=shape)], "rank")
+  conv1 = [  # (padding, kernel, strides, dilation, length, batch)
+      ("same", 3, 1, 2, 1, 1), ("causal", 3, 1, 2, 1, 1), ("same", 2, 1, 3, 4, 1), ("valid", 2, 3, 1, 7, 1),
+      ("same", 2, 3, 1, 5, 2), ("causal", 2, 3, 1, 4, 1), ("valid", 1, 2, 1, 1, 1), ("same", 3, 1, 1, 2, 1),
+      ("valid", 3, 1, 2, 5, 1), ("causal", 1, 1, 1, 3, 2)]
+  for cls in ("conv1d", "sepconv1d"):
+    for t, (pad, k, st, dl, ln, b) in enumerate(conv1):
+      for df in ("channels_last", "channels_first"):
+        i += 1
+        geo = dict(filters=1 + i % 3, kernel=k, strides=st, padding=pad, dilation=dl, use_bias=(i % 3 != 0), cin=1 + i % 3,
+                   data_format=df)
+        geo.update(dict(groups=1) if cls == "conv1d" else dict(depth_multiplier=1 + i % 2))
+        add(cls, geo, qsel(rng, SLOTS[cls], i, force_none=(i % 7 == 6)), [dict(length=ln, batch=b)], "rank")
+  # grouped causal channels_first: the channel-axis pad of K.conv1d can give a legal (wrong) grouped convolution
+  for (f_, k_, d_, cin_) in ((6, 2, 2, 4), (3, 3, 2, 2)):
+    i += 1
+    add("conv1d", dict(filters=f_, kernel=k_, strides=1, padding="causal", dilation=d_, use_bias=(i % 2 == 0), cin=cin_,
+                       groups=2 if cin_ == 4 else 1, data_format="channels_first"),
+        qsel(rng, SLOTS["conv1d"], i), [dict(length=6, batch=2)], "rank")
+  conv2 = [  # (padding, kernel, strides, dilation, hw, batch)
+      ("same", [3, 3], [1, 1], [2, 2], [1, 1], 1), ("same", [2, 3], [1, 1], [2, 3], [3, 1], 1),
+      ("valid", [2, 2], [3, 3], [1, 1], [7, 5], 1), ("same", [2, 2], [3, 2], [1, 1], [5, 1], 2),
+      ("valid", [1, 1], [2, 2], [1, 1], [1, 1], 1), ("same", [3, 2], [1, 1], [1, 2], [2, 2], 1),
+      ("valid", [1, 3], [1, 1], [1, 2], [1, 5], 1), ("same", [1, 1], [1, 3], [1, 1], [1, 4], 1)]
+  for cls in ("conv2d", "sepconv2d", "dwconv2d"):
+    for t, (pad, k, st, dl, hw, b) in enumerate(conv2):
+      if not thorough and cls != "conv2d" and t % 2 == 1:
+        continue
+      i += 1
+      geo = dict(kernel=k, strides=st, padding=pad, dilation=dl, use_bias=(i % 3 != 0), cin=1 + i % 2)
+      if cls != "dwconv2d":
+        geo["filters"] = 1 + i % 3
+      geo.update(dict(groups=1, mask=False) if cls == "conv2d" else dict(depth_multiplier=1 + i % 2))
+      if i % 3 == 1:
+        geo["data_format"] = "channels_first"
+      add(cls, geo, qsel(rng, SLOTS[cls], i, force_none=(i % 7 == 6)), [dict(hw=hw, batch=b)], "rank")
+  for t, (pool, st, pad, hw) in enumerate([([2, 2], [3, 3], "valid", [5, 8]), ([2, 2], [3, 3], "same", [4, 5]),
+                                           ([3, 3], None, "same", [1, 1]), ([2, 3], [1, 1], "same", [1, 4]),
+                                           ([1, 2], [2, 2], "valid", [1, 2]), ([3, 3], [1, 2], "valid", [3, 3])]):
+    i += 1
+    add("avgpool2d", dict(pool=pool, strides=st, padding=pad), qsel(rng, SLOTS["avgpool2d"], i + 1),
+        [dict(hw=hw, batch=1, cin=1 + t % 2)], "rank")
+  for t, hw in enumerate([[1, 1], [1, 7], [5, 1], [3, 5]]):
+    i += 1
+    add("globalavgpool2d", dict(keepdims=(t % 2 == 0)), qsel(rng, SLOTS["globalavgpool2d"], t + 1),
+        [dict(hw=hw, batch=1, cin=1 + t % 2)], "rank")
+  for ci, cls in enumerate(RNN):
+    for (b, t) in ((1, 1), (1, 4)):
+      i += 1
+      geo = dict(units=1 + i % 3, in_dim=1 + i % 2, use_bias=True, impl=1 + (i % 2 if cls != "simplernn" else 0),
+                 reset_after=(cls == "gru" and i % 2 == 0))
+      add(cls, geo, rnn_q(rng, cls, i, i, False), [dict(batch=b, steps=t)], "rank")
+  return G
+
+
 # ----------------------------------------------------------------------------- running the real code
 
-def conv_kwargs(g, rank):
-  kw = dict(strides=g["strides"], padding=g["padding"], dilation_rate=g["dilation"], use_bias=g["use_bias"])
-  if g.get("data_format"):
-    kw["data_format"] = g["data_format"]
-  return kw
+def resolved_df(G):
+  """the data format the layer works in: its constructor argument, else the constructor's default (a literal
+  for QConv1D, `K.image_data_format()` AT CONSTRUCTION for the others)"""
+  if G.cls not in HAS_DF:
+    return DEFAULT_FMT
+  v = G.geo["data_format"] if "data_format" in G.geo else HAS_DF[G.cls]
+  return v or G.fmts[0]
 
 
-def build_layers(c):
-  """(quantized layer, stock layer or None, input array)"""
+def make_x(c, rng, df):
+  g, cls = c.geo, c.cls
+  last = df == "channels_last"
+  if cls == "dense":
+    shp = g["shape"] if "shape" in g else [g["batch"]] + [3] * (g["rank"] - 2) + [g["in_dim"]]
+    return dy(rng, shp, 4, -8, 8)
+  if cls == "activation":
+    return dy(rng, g["shape"], 16, -40, 40)
+  if cls == "scaleshift":
+    return dy(rng, g["shape"], 4, -8, 8)
+  if cls in ("conv1d", "sepconv1d"):
+    return dy(rng, [g["batch"], g["length"], g["cin"]] if last else [g["batch"], g["cin"], g["length"]], 4, -8, 8)
+  if cls in RNN:
+    return dy(rng, [g["batch"], g["steps"], g["in_dim"]], 4, -6, 6)
+  return dy(rng, [g["batch"]] + g["hw"] + [g["cin"]] if last else [g["batch"], g["cin"]] + g["hw"], 4, -8, 8)
+
+
+def form_ksz(v, form):
+  """the same kernel size / strides / dilation value in another accepted argument form"""
+  if v is None or form == "asis":
+    return v
+  lst = list(v) if isinstance(v, (list, tuple)) else [v]
+  if form == "int":
+    return lst[0] if len(set(lst)) == 1 else tuple(lst)
+  return tuple(lst) if form == "tuple" else list(lst)
+
+
+def form_q(s, form, rng):
+  """the quantizer argument as the configuration string, as a quantizer object, or as an object that has
+  already been used stand-alone on a tensor of another shape"""
+  import tensorflow as tf
+  if s is None or form == "string":
+    return s
+  q = fresh_q(s)
+  if form == "used":
+    q(tf.constant(dy(rng, [3, 5], 16, -20, 20)))
+  return q
+
+
+def form_x(x, form):
+  import tensorflow as tf
+  if form == "numpy":
+    return x
+  if form == "variable":
+    return tf.Variable(x)
+  return tf.constant(x)
+
+
+def build_pair(G, rng):
+  """(quantized layer, factory of stock layers or None).  `mk(plain=False)`: the stock TWIN of the ties gets
+  the data format the harness' model resolves (G.df) explicitly; `mk(plain=True)`: a stock layer with literally
+  the constructor arguments of the quantized one (clause `ctor_default`)."""
   import tensorflow as tf
   import qkeras as Q
   KL = tf.keras.layers
-  g, q, cls = c.geo, c.q, c.cls
-  rng = c.rng
+  g, q, cls = G.geo, G.q, G.cls
+  kf = G.forms.get("ksz", "asis")
+  qf = G.forms.get("q", "string")
+  qa = lambda slot: form_q(q.get(slot), qf, rng)   # noqa: E731
+  dfkw = {"data_format": g["data_format"]} if "data_format" in g else {}
+  sdf = lambda plain: dfkw if plain or cls not in HAS_DF else {"data_format": G.df}   # noqa: E731
   if cls == "dense":
-    x = dy(rng, [g["batch"]] + [3] * (g["rank"] - 2) + [g["in_dim"]], 4, -8, 8)
-    return (Q.QDense(g["units"], use_bias=g["use_bias"], kernel_quantizer=q["kernel"], bias_quantizer=q["bias"],
-                     activation=q["act"]),
-            KL.Dense(g["units"], use_bias=g["use_bias"]), x)
+    u = np.int64(g["units"]) if kf == "list" else g["units"]
+    return (Q.QDense(u, use_bias=g["use_bias"], kernel_quantizer=qa("kernel"), bias_quantizer=qa("bias"),
+                     activation=qa("act")),
+            lambda plain=False: KL.Dense(g["units"], use_bias=g["use_bias"]))
   if cls == "activation":
-    x = dy(rng, g["shape"], 16, -40, 40)
-    return Q.QActivation(q["act"]), None, x
-  if cls == "conv1d":
-    x = dy(rng, [g["batch"], g["length"], g["cin"]], 4, -8, 8)
-    kw = conv_kwargs(g, 1)
-    return (Q.QConv1D(g["filters"], g["kernel"], groups=g["groups"], kernel_quantizer=q["kernel"],
-                      bias_quantizer=q["bias"], activation=q["act"], **kw),
-            KL.Conv1D(g["filters"], g["kernel"], groups=g["groups"], **kw), x)
-  if cls == "conv2d":
-    shp = [g["batch"]] + g["hw"] + [g["cin"]] if g["data_format"] == "channels_last" else [g["batch"], g["cin"]] + g["hw"]
-    x = dy(rng, shp, 4, -8, 8)
-    kw = conv_kwargs(g, 2)
-    mask = None
-    if g["mask"]:
-      mask = rng.integers(0, 2, size=g["kernel"]).astype(np.float32)
-      mask[0, 0] = 0.0
-    c.mask = mask
-    return (Q.QConv2D(g["filters"], g["kernel"], groups=g["groups"], kernel_quantizer=q["kernel"],
-                      bias_quantizer=q["bias"], activation=q["act"], mask=mask, **kw),
-            KL.Conv2D(g["filters"], g["kernel"], groups=g["groups"], **kw), x)
-  if cls == "sepconv1d":
-    x = dy(rng, [g["batch"], g["length"], g["cin"]], 4, -8, 8)
-    kw = conv_kwargs(g, 1)
-    return (Q.QSeparableConv1D(g["filters"], g["kernel"], depth_multiplier=g["depth_multiplier"],
-                               depthwise_quantizer=q["depthwise"], pointwise_quantizer=q["pointwise"],
-                               bias_quantizer=q["bias"], activation=q["act"], **kw),
-            KL.SeparableConv1D(g["filters"], g["kernel"], depth_multiplier=g["depth_multiplier"], **kw), x)
-  if cls == "sepconv2d":
-    x = dy(rng, [g["batch"]] + g["hw"] + [g["cin"]], 4, -8, 8)
-    kw = conv_kwargs(g, 2)
-    return (Q.QSeparableConv2D(g["filters"], g["kernel"], depth_multiplier=g["depth_multiplier"],
-                               depthwise_quantizer=q["depthwise"], pointwise_quantizer=q["pointwise"],
-                               bias_quantizer=q["bias"], activation=q["act"], **kw),
-            KL.SeparableConv2D(g["filters"], g["kernel"], depth_multiplier=g["depth_multiplier"], **kw), x)
-  if cls == "dwconv2d":
-    x = dy(rng, [g["batch"]] + g["hw"] + [g["cin"]], 4, -8, 8)
-    kw = conv_kwargs(g, 2)
-    return (Q.QDepthwiseConv2D(g["kernel"], depth_multiplier=g["depth_multiplier"],
-                               depthwise_quantizer=q["depthwise"], bias_quantizer=q["bias"], activation=q["act"], **kw),
-            KL.DepthwiseConv2D(g["kernel"], depth_multiplier=g["depth_multiplier"], **kw), x)
-  if cls == "avgpool2d":
-    shp = [g["batch"]] + g["hw"] + [g["cin"]] if g["data_format"] == "channels_last" else [g["batch"], g["cin"]] + g["hw"]
-    x = dy(rng, shp, 4, -8, 8)
-    kw = dict(pool_size=tuple(g["pool"]), strides=None if g["strides"] is None else tuple(g["strides"]),
-              padding=g["padding"], data_format=g["data_format"])
-    return Q.QAveragePooling2D(average_quantizer=q["average"], activation=q["act"], **kw), KL.AveragePooling2D(**kw), x
-  if cls == "globalavgpool2d":
-    shp = [g["batch"]] + g["hw"] + [g["cin"]] if g["data_format"] == "channels_last" else [g["batch"], g["cin"]] + g["hw"]
-    x = dy(rng, shp, 4, -8, 8)
-    kw = dict(data_format=g["data_format"], keepdims=g["keepdims"])
-    return (Q.QGlobalAveragePooling2D(average_quantizer=q["average"], activation=q["act"], **kw),
-            KL.GlobalAveragePooling2D(**kw), x)
+    return Q.QActivation(qa("act")), None
   if cls == "scaleshift":
-    x = dy(rng, g["shape"], 4, -8, 8)
-    return Q.QScaleShift(weight_quantizer=q["weight"], bias_quantizer=q["bias"], use_bias=g["use_bias"],
-                         activation=q["act"]), None, x
+    return Q.QScaleShift(weight_quantizer=qa("weight"), bias_quantizer=qa("bias"), use_bias=g["use_bias"],
+                         activation=qa("act")), None
+  if cls in ("conv1d", "sepconv1d", "conv2d", "sepconv2d", "dwconv2d"):
+    base = dict(strides=g["strides"], padding=g["padding"], dilation_rate=g["dilation"], use_bias=g["use_bias"])
+    skw = lambda plain: dict(base, **sdf(plain))   # noqa: E731
+    qkw = dict(base, strides=form_ksz(g["strides"], kf), dilation_rate=form_ksz(g["dilation"], kf), **dfkw)
+    ks = form_ksz(g["kernel"], kf)
+    if cls == "conv1d":
+      return (Q.QConv1D(g["filters"], ks, groups=g["groups"], kernel_quantizer=qa("kernel"),
+                        bias_quantizer=qa("bias"), activation=qa("act"), **qkw),
+              lambda plain=False: KL.Conv1D(g["filters"], g["kernel"], groups=g["groups"], **skw(plain)))
+    if cls == "conv2d":
+      mask = None
+      if g.get("mask"):
+        mask = rng.integers(0, 2, size=g["kernel"]).astype(np.float32)
+        mask[0, 0] = 0.0
+      G.mask = mask
+      return (Q.QConv2D(g["filters"], ks, groups=g["groups"], kernel_quantizer=qa("kernel"),
+                        bias_quantizer=qa("bias"), activation=qa("act"), mask=mask, **qkw),
+              lambda plain=False: KL.Conv2D(g["filters"], g["kernel"], groups=g["groups"], **skw(plain)))
+    if cls == "sepconv1d":
+      return (Q.QSeparableConv1D(g["filters"], ks, depth_multiplier=g["depth_multiplier"],
+                                 depthwise_quantizer=qa("depthwise"), pointwise_quantizer=qa("pointwise"),
+                                 bias_quantizer=qa("bias"), activation=qa("act"), **qkw),
+              lambda plain=False: KL.SeparableConv1D(g["filters"], g["kernel"], depth_multiplier=g["depth_multiplier"],
+                                                     **skw(plain)))
+    if cls == "sepconv2d":
+      return (Q.QSeparableConv2D(g["filters"], ks, depth_multiplier=g["depth_multiplier"],
+                                 depthwise_quantizer=qa("depthwise"), pointwise_quantizer=qa("pointwise"),
+                                 bias_quantizer=qa("bias"), activation=qa("act"), **qkw),
+              lambda plain=False: KL.SeparableConv2D(g["filters"], g["kernel"], depth_multiplier=g["depth_multiplier"],
+                                                     **skw(plain)))
+    return (Q.QDepthwiseConv2D(ks, depth_multiplier=g["depth_multiplier"],
+                               depthwise_quantizer=qa("depthwise"), bias_quantizer=qa("bias"), activation=qa("act"), **qkw),
+            lambda plain=False: KL.DepthwiseConv2D(g["kernel"], depth_multiplier=g["depth_multiplier"], **skw(plain)))
+  if cls == "avgpool2d":
+    kw = dict(pool_size=tuple(g["pool"]), strides=None if g["strides"] is None else tuple(g["strides"]),
+              padding=g["padding"])
+    qkw = dict(kw, pool_size=form_ksz(g["pool"], kf if kf != "asis" else "tuple"), **dfkw)
+    return (Q.QAveragePooling2D(average_quantizer=qa("average"), activation=qa("act"), **qkw),
+            lambda plain=False: KL.AveragePooling2D(**kw, **sdf(plain)))
+  if cls == "globalavgpool2d":
+    kw = dict(keepdims=g["keepdims"])
+    return (Q.QGlobalAveragePooling2D(average_quantizer=qa("average"), activation=qa("act"), **kw, **dfkw),
+            lambda plain=False: KL.GlobalAveragePooling2D(**kw, **sdf(plain)))
   raise ValueError(cls)
 
 
-def cfg_of(c):
-  """protocol form of the configuration (what `call` looks at)"""
-  g, q, cls = c.geo, c.q, c.cls
+def cfg_of(G):
+  """protocol form of the configuration (what `call` looks at) — constructor arguments and the two
+  process-level data formats only; nothing of the shapes of the calls"""
+  g, q, cls = G.geo, G.q, G.cls
   slots = SLOTS[cls]
   cfg = {"has_q": [int(q.get(s) is not None) for s in slots], "has_act": q.get("act") is not None,
-         "use_bias": bool(g.get("use_bias", True))}
+         "use_bias": bool(g.get("use_bias", True)), "image_df": G.fmts[1], "data_format": G.df}
   if cls in ("conv1d", "sepconv1d"):
     cfg.update(strides=[g["strides"]], dilation=[g["dilation"]], padding=g["padding"], kernel=g["kernel"])
   if cls in ("conv2d", "sepconv2d", "dwconv2d"):
-    cfg.update(strides=g["strides"], dilation=g["dilation"], padding=g["padding"],
-               data_format=g.get("data_format", "channels_last"), has_mask=bool(g.get("mask")))
+    cfg.update(strides=g["strides"], dilation=g["dilation"], padding=g["padding"], has_mask=bool(g.get("mask")))
   if cls == "avgpool2d":
     cfg.update(pool=g["pool"], pool_strides=g["strides"] if g["strides"] is not None else g["pool"],
-               padding=g["padding"], data_format=g["data_format"], area=int(np.prod(g["pool"])))
+               padding=g["padding"], area=int(np.prod(g["pool"])))
   if cls == "globalavgpool2d":
-    cfg.update(data_format=g["data_format"], keepdims=g["keepdims"], area=int(np.prod(g["hw"])))
-  if cls in ("simplernn", "lstm", "gru"):
+    cfg.update(keepdims=g["keepdims"])      # NO area: the model takes it from the tensor of each call
+  if cls in RNN:
     cfg.update(units=g["units"], impl=g["impl"], reset_after=g["reset_after"])
   return cfg
 
 
-def weight_quantizers(c):
-  slots = [s for s in SLOTS[c.cls] if s not in ("state", "average")]
-  return [c.q.get(s) for s in slots]
+def catch(c, e):
+  c.err = (type(e).__name__, str(e)[:400])
 
 
-def run_feedforward(c):
+def run_feedforward(G):
   import tensorflow as tf
-  ql, sl, x = build_layers(c)
-  c.x = x
-  g, q, cls = c.geo, c.q, c.cls
-  rng = c.rng
-  if cls not in ("activation", "avgpool2d", "globalavgpool2d"):
-    ql.build(x.shape)
-  n_w = len(ql.weights)
-  W = []
-  for i, w in enumerate(ql.weights):
-    shp = [int(v) for v in w.shape]
-    W.append(dy(rng, shp, 16, -20, 20) if len(shp) > 1 or cls == "scaleshift" else dy(rng, shp, 16, -24, 24))
-  if n_w:
-    ql.set_weights(W)
-  c.W = W
-  wq = weight_quantizers(c)
-  if not g.get("use_bias", True):
-    wq = wq[:n_w]
+  K = tf.keras.backend
+  g, q, cls = G.geo, G.q, G.cls
+  rng = G.rng
+  G.df = resolved_df(G)
+  xs = [make_x(c, rng, G.df) for c in G.cases]
+  for c, x in zip(G.cases, xs):
+    c.x = x
+  xform = G.forms.get("x", "tensor")
   try:
-    y = ql(tf.constant(x))
-    c.impl = [np.asarray(y, dtype=np.float32)]
-  except Exception as e:  # pylint: disable=broad-except
-    c.err = (type(e).__name__, str(e)[:400])
-  try:
-    rep = ql.get_quantizers() if hasattr(ql, "get_quantizers") else None
-    c.reported = None if rep is None else [None if r is None else str(r) for r in rep]
-  except Exception as e:  # pylint: disable=broad-except
-    c.reported = "ERR " + type(e).__name__
-  # ---- the property's oracle on the real code
-  act = (lambda t: t) if q.get("act") is None else fresh_q(q["act"])
-  wslots = [sl_ for sl_ in SLOTS[cls] if sl_ not in ("state", "average")]
-  tr = [sl_ in TRAINABLE.get(cls, []) for sl_ in wslots]
-  QW = [apply_q(s, w, t) for s, w, t in zip(wq, W, tr)]
-  c.QW = QW
-  xt = tf.constant(x)
-  if cls == "activation":
-    c.oracle = [np.asarray(act(xt), dtype=np.float32)]
-  elif cls == "scaleshift":
-    out = xt * tf.constant(QW[0])
-    if g["use_bias"]:
-      out = tf.constant(QW[1]) + out
-    c.oracle = [np.asarray(act(out), dtype=np.float32)]
-    out = xt * tf.constant(W[0])
-    if g["use_bias"]:
-      out = tf.constant(W[1]) + out
-    c.stock_raw = [np.asarray(out, dtype=np.float32)]
-  elif cls == "avgpool2d":
-    c.stock_raw = [np.asarray(sl(xt), dtype=np.float32)]
-    if q["average"] is None:
-      c.oracle = [np.asarray(act(sl(xt)), dtype=np.float32)]
+    # ---------------------------------------------------------------- construction (and `build`)
+    K.set_image_data_format(G.fmts[0])
+    ql, mk_stock = build_pair(G, rng)
+    sls = [mk_stock() if mk_stock else None for _ in G.cases]
+    if cls in HAS_DF:
+      # clause ctor_default: the same constructor arguments resolve to the same data format in both classes
+      G.ctor_df = (str(getattr(ql, "data_format", None)), str(mk_stock(plain=True).data_format))
+      if G.ctor_df[0] != G.df:
+        # the quantized class resolves its data format differently from the harness' model of the constructor
+        # signatures: the inputs (shaped for G.df) are not inputs of this layer — reported as `ctor_default`
+        G.skip = True
+        G.lines = []
+        return
+    model = None
+    if G.mode in ("functional", "dynamic"):
+      try:
+        if G.mode == "dynamic":
+          shp = [None if (k_ != (len(xs[0].shape) - 2 if G.df == "channels_last" else 0)) else int(v)
+                 for k_, v in enumerate(xs[0].shape[1:])]
+          ins = tf.keras.Input(shape=shp)
+          model = tf.keras.Model(ins, ql(ins))
+        else:
+          ins = [tf.keras.Input(shape=x.shape[1:]) for x in xs]
+          model = tf.keras.Model(ins, [ql(t) for t in ins])
+      except Exception as e:  # pylint: disable=broad-except
+        for c in G.cases:
+          catch(c, e)
+    elif cls not in ("activation", "avgpool2d", "globalavgpool2d"):
+      ql.build(xs[0].shape)
+    def new_weights():
+      W_ = []
+      for w in ql.weights:
+        shp = [int(v) for v in w.shape]
+        W_.append(dy(rng, shp, 16, -20, 20) if len(shp) > 1 or cls == "scaleshift" else dy(rng, shp, 16, -24, 24))
+      if W_:
+        ql.set_weights(W_)
+      return W_
+
+    W = new_weights()
+    G.W = W
+    n_w = len(W)
+    epochs = [(W, [])]          # (weight values, positions of the calls made with them)
+    ckw = {"training": G.forms["training"]} if "training" in G.forms else {}
+    # ---------------------------------------------------------------- the calls, one after the other
+    K.set_image_data_format(G.fmts[1])
+    if G.mode == "functional":
+      epochs[0][1].extend(range(len(G.cases)))
+      if model is not None:
+        try:
+          ys = model([form_x(x, xform) for x in xs], **ckw)
+          ys = ys if isinstance(ys, (list, tuple)) else [ys]
+          for c, y in zip(G.cases, ys):
+            c.impl = [np.asarray(y, dtype=np.float32)]
+        except Exception as e:  # pylint: disable=broad-except
+          for c in G.cases:
+            catch(c, e)
+    elif G.mode == "dynamic":
+      epochs[0][1].extend(range(len(G.cases)))
+      for c, x in zip(G.cases, xs):
+        if model is not None:
+          try:
+            c.impl = [np.asarray(model(form_x(x, xform), **ckw), dtype=np.float32)]
+          except Exception as e:  # pylint: disable=broad-except
+            catch(c, e)
     else:
-      area = int(np.prod(g["pool"]))
-      qr = np.float32(np.asarray(fresh_q(q["average"])(1.0 / area)))
-      c.qrecip = qr
-      c.oracle = [np.asarray(act(sl(xt * np.float32(area)) * qr), dtype=np.float32)]
-  elif cls == "globalavgpool2d":
-    c.stock_raw = [np.asarray(sl(xt), dtype=np.float32)]
-    if q["average"] is None:
-      c.oracle = [np.asarray(act(sl(xt)), dtype=np.float32)]
-    else:
-      area = int(np.prod(g["hw"]))
-      qr = np.float32(np.asarray(fresh_q(q["average"])(1.0 / area)))
-      c.qrecip = qr
-      ax = (1, 2) if g["data_format"] == "channels_last" else (2, 3)
-      s = np.sum(x.astype(np.float64), axis=ax, keepdims=g["keepdims"]).astype(np.float32)   # exact: short dyadics
-      c.oracle = [np.asarray(act(tf.constant(s * qr)), dtype=np.float32)]
-  else:
-    sl.build(x.shape)
-    QWm = list(QW)
-    if cls == "conv2d" and c.mask is not None:
-      QWm[0] = QW[0] * c.mask.reshape(c.mask.shape + (1, 1))
-    sl.set_weights(QWm)
-    c.oracle = [np.asarray(act(sl(xt)), dtype=np.float32)]
-    sl.set_weights(W)
-    c.stock_raw = [np.asarray(sl(xt), dtype=np.float32)]
-  # ---- the model's input line
-  quant = []
-  slots = SLOTS[cls]
-  for i, s in enumerate(slots):
-    qs = q.get(s)
-    if s == "average":
-      area = cfg_of(c)["area"]
-      if qs is None:
-        quant.append(None)
-      else:
-        key = {"s": [], "d": [core.rj(F(1, area))]}
-        quant.append({"k": "table", "e": [[key, tj(np.float32(c.qrecip).reshape(()))]]})
-      continue
-    t = s in TRAINABLE.get(cls, [])
-    if i >= len(W):
-      quant.append(None if qs is None else qspec(qs, [], t))
-      continue
-    args = [W[i]]
-    if cls == "sepconv1d" and i < 2:
-      args = [W[i][None, ...], W[i]]      # the layer quantizes the kernel expanded to 4-D
-    quant.append(qspec(qs, args, t))
-  line = {"op": "layer", "cls": cls, "cfg": cfg_of(c), "x": tj(x), "weights": [tj(w) for w in W],
-          "quant": quant, "actv": [qspec(q.get("act"))]}
-  if cls == "conv2d" and c.mask is not None:
-    line["mask"] = tj(c.mask.reshape(c.mask.shape + (1, 1)))
-  if q.get("act") is not None and q["act"] not in SPEC:
-    raise core.InfraError("activation %s has no element-wise model" % q["act"])
-  c.line = line
+      for c, x in zip(G.cases, xs):
+        if G.reweigh is not None and c.pos == G.reweigh and n_w:
+          epochs.append((new_weights(), []))
+        epochs[-1][1].append(c.pos)
+        try:
+          c.impl = [np.asarray(ql(form_x(x, xform), **ckw), dtype=np.float32)]
+        except Exception as e:  # pylint: disable=broad-except
+          catch(c, e)
+    try:
+      rep = ql.get_quantizers() if hasattr(ql, "get_quantizers") else None
+      G.reported = None if rep is None else [None if r is None else str(r) for r in rep]
+    except Exception as e:  # pylint: disable=broad-except
+      G.reported = "ERR " + type(e).__name__
+    # ---------------------------------------------------------------- the property's oracle on the real code:
+    # per call a FRESH stock layer with weights q_i(w_i) from quantizer objects built here, then the activation
+    wq = [q.get(s) for s in SLOTS[cls] if s not in ("state", "average")]
+    if not g.get("use_bias", True):
+      wq = wq[:n_w]
+    act = (lambda t: t) if q.get("act") is None else fresh_q(q["act"])
+    wslots = [sl_ for sl_ in SLOTS[cls] if sl_ not in ("state", "average")]
+    tr = [sl_ in TRAINABLE.get(cls, []) for sl_ in wslots]
+    if q.get("act") is not None and q["act"] not in SPEC:
+      raise core.InfraError("activation %s has no element-wise model" % q["act"])
+    G.lines = []
+    for ei, (W, members) in enumerate(epochs):
+      QW = [apply_q(s, w, t) for s, w, t in zip(wq, W, tr)]
+      qrecip = {}
+      for lp, pos in enumerate(members):
+        c, x, sl = G.cases[pos], xs[pos], sls[pos]
+        c.line_off, c.line_pos = ei, lp
+        xt = tf.constant(x)
+        if cls == "activation":
+          c.oracle = [np.asarray(act(xt), dtype=np.float32)]
+        elif cls == "scaleshift":
+          out = xt * tf.constant(QW[0])
+          if g["use_bias"]:
+            out = tf.constant(QW[1]) + out
+          c.oracle = [np.asarray(act(out), dtype=np.float32)]
+          out = xt * tf.constant(W[0])
+          if g["use_bias"]:
+            out = tf.constant(W[1]) + out
+          c.stock_raw = [np.asarray(out, dtype=np.float32)]
+        elif cls == "avgpool2d":
+          c.stock_raw = [np.asarray(sl(xt), dtype=np.float32)]
+          if q["average"] is None:
+            c.oracle = [np.asarray(act(sl(xt)), dtype=np.float32)]
+          else:
+            area = int(np.prod(g["pool"]))
+            qr = np.float32(np.asarray(fresh_q(q["average"])(1.0 / area)))
+            qrecip[area] = qr
+            c.oracle = [np.asarray(act(sl(xt * np.float32(area)) * qr), dtype=np.float32)]
+        elif cls == "globalavgpool2d":
+          c.stock_raw = [np.asarray(sl(xt), dtype=np.float32)]
+          if q["average"] is None:
+            c.oracle = [np.asarray(act(sl(xt)), dtype=np.float32)]
+          else:
+            area = int(np.prod(c.geo["hw"]))      # of THIS call
+            qr = np.float32(np.asarray(fresh_q(q["average"])(1.0 / area)))
+            qrecip[area] = qr
+            ax = (1, 2) if G.df == "channels_last" else (2, 3)
+            s = np.sum(x.astype(np.float64), axis=ax, keepdims=g["keepdims"]).astype(np.float32)   # exact: short dyadics
+            c.oracle = [np.asarray(act(tf.constant(s * qr)), dtype=np.float32)]
+        else:
+          try:
+            sl.build(x.shape)
+            QWm = list(QW)
+            if cls == "conv2d" and G.mask is not None:
+              QWm[0] = QW[0] * G.mask.reshape(G.mask.shape + (1, 1))
+            sl.set_weights(QWm)
+            c.oracle = [np.asarray(act(sl(xt)), dtype=np.float32)]
+            sl.set_weights(W)
+            c.stock_raw = [np.asarray(sl(xt), dtype=np.float32)]
+          except Exception as e:  # pylint: disable=broad-except
+            raise core.InfraError("stock %s layer failed on %s: %s" % (cls, c.label, str(e)[:300]))
+      # -------------------------------------------------------------- the model's input line: one per OBJECT and
+      # weight epoch, with the whole list of calls made in it
+      quant = []
+      slots = SLOTS[cls]
+      for i, s in enumerate(slots):
+        qs = q.get(s)
+        if s == "average":
+          if qs is None:
+            quant.append(None)
+          else:
+            quant.append({"k": "table", "e": [[{"s": [], "d": [core.rj(F(1, a))]}, tj(np.float32(v).reshape(()))]
+                                              for a, v in sorted(qrecip.items())]})
+          continue
+        t = s in TRAINABLE.get(cls, [])
+        if i >= len(W):
+          quant.append(None if qs is None else qspec(qs, [], t))
+          continue
+        args = [W[i]]
+        if cls == "sepconv1d" and i < 2:
+          args = [W[i][None, ...], W[i]]      # the layer quantizes the kernel expanded to 4-D
+        quant.append(qspec(qs, args, t))
+      line = {"op": "layer", "cls": cls, "cfg": cfg_of(G), "xs": [tj(xs[pos]) for pos in members],
+              "weights": [tj(w) for w in W], "quant": quant, "actv": [qspec(q.get("act"))]}
+      if cls == "conv2d" and G.mask is not None:
+        line["mask"] = tj(G.mask.reshape(G.mask.shape + (1, 1)))
+      G.lines.append(line)
+  finally:
+    K.set_image_data_format(DEFAULT_FMT)
 
 
-def run_recurrent(c):
+def run_recurrent(G):
   import tensorflow as tf
   import qkeras as Q
+  K = tf.keras.backend
   KL = tf.keras.layers
-  g, q, cls = c.geo, c.q, c.cls
-  rng = c.rng
-  u, B, T = g["units"], g["batch"], g["steps"]
-  x = dy(rng, [B, T, g["in_dim"]], 4, -6, 6)
-  c.x = x
-  kw = dict(use_bias=g["use_bias"], kernel_quantizer=q["kernel"], recurrent_quantizer=q["recurrent"],
-            bias_quantizer=q["bias"], state_quantizer=q["state"], activation=q["act"],
-            return_sequences=True, return_state=True)
-  skw = dict(use_bias=g["use_bias"], activation=fresh_q(q["act"]))
-  if cls == "simplernn":
-    ql = Q.QSimpleRNN(u, **kw)
-    mk_cell = lambda: KL.SimpleRNNCell(u, **skw)
-  elif cls == "lstm":
-    ql = Q.QLSTM(u, recurrent_activation=q["ract"], implementation=g["impl"], **kw)
-    mk_cell = lambda: KL.LSTMCell(u, recurrent_activation=fresh_q(q["ract"]), implementation=g["impl"], **skw)
-  else:
-    ql = Q.QGRU(u, recurrent_activation=q["ract"], implementation=g["impl"], reset_after=g["reset_after"], **kw)
-    mk_cell = lambda: KL.GRUCell(u, recurrent_activation=fresh_q(q["ract"]), implementation=g["impl"],
-                                 reset_after=g["reset_after"], **skw)
-  ql.build(x.shape)
-  W = [dy(rng, [int(v) for v in w.shape], 16, -20, 20) for w in ql.weights]
-  ql.set_weights(W)
-  c.W = W
+  g, q, cls = G.geo, G.q, G.cls
+  rng = G.rng
+  G.df = DEFAULT_FMT
+  u = g["units"]
+  xs = [make_x(c, rng, G.df) for c in G.cases]
+  for c, x in zip(G.cases, xs):
+    c.x = x
+  qf = G.forms.get("q", "string")
+  xform = G.forms.get("x", "tensor")
+  qa = lambda slot: form_q(q.get(slot), qf, rng)   # noqa: E731
   try:
-    outs = ql(tf.constant(x))
-    c.impl = [np.asarray(o, dtype=np.float32) for o in outs]      # sequence of h, final h [, final c]
-  except Exception as e:  # pylint: disable=broad-except
-    c.err = (type(e).__name__, str(e)[:400])
-  rep = ql.get_quantizers()
-  c.reported = [None if r is None else str(r) for r in rep]
-  wq = [q["kernel"], q["recurrent"], q["bias"]][:len(W)]
-  tr = [True, True, False]
-  QW = [apply_q(s, w, t) for s, w, t in zip(wq, W, tr)]
-  sq = (lambda t: t) if q["state"] is None else fresh_q(q["state"])
+    K.set_image_data_format(G.fmts[0])
+    kw = dict(use_bias=g["use_bias"], kernel_quantizer=qa("kernel"), recurrent_quantizer=qa("recurrent"),
+              bias_quantizer=qa("bias"), state_quantizer=qa("state"), activation=qa("act"),
+              return_sequences=True, return_state=True)
+    skw = lambda: dict(use_bias=g["use_bias"], activation=fresh_q(q["act"]))   # noqa: E731
+    if cls == "simplernn":
+      ql = Q.QSimpleRNN(u, **kw)
+      mk_cell = lambda: KL.SimpleRNNCell(u, **skw())   # noqa: E731
+    elif cls == "lstm":
+      ql = Q.QLSTM(u, recurrent_activation=qa("ract"), implementation=g["impl"], **kw)
+      mk_cell = lambda: KL.LSTMCell(u, recurrent_activation=fresh_q(q["ract"]), implementation=g["impl"], **skw())   # noqa: E731
+    else:
+      ql = Q.QGRU(u, recurrent_activation=qa("ract"), implementation=g["impl"], reset_after=g["reset_after"], **kw)
+      mk_cell = lambda: KL.GRUCell(u, recurrent_activation=fresh_q(q["ract"]), implementation=g["impl"],   # noqa: E731
+                                   reset_after=g["reset_after"], **skw())
+    cells = [mk_cell() for _ in range(2 * len(G.cases))]
+    model = None
+    n_out = 3 if cls == "lstm" else 2
+    if G.mode == "dynamic":
+      try:
+        ins = tf.keras.Input(shape=(None, g["in_dim"]))
+        model = tf.keras.Model(ins, list(ql(ins)))
+      except Exception as e:  # pylint: disable=broad-except
+        for c in G.cases:
+          catch(c, e)
+    elif G.mode == "functional":
+      try:
+        ins = [tf.keras.Input(shape=x.shape[1:]) for x in xs]
+        outs = []
+        for t in ins:
+          outs += list(ql(t))
+        model = tf.keras.Model(ins, outs)
+      except Exception as e:  # pylint: disable=broad-except
+        for c in G.cases:
+          catch(c, e)
+    else:
+      ql.build(xs[0].shape)
+    def new_weights():
+      W_ = [dy(rng, [int(v) for v in w.shape], 16, -20, 20) for w in ql.weights]
+      ql.set_weights(W_)
+      return W_
 
-  def stock_run(weights, state_q):
-    cell = mk_cell()
-    cell.build((B, g["in_dim"]))
-    cell.set_weights(weights)
-    st = [tf.zeros((B, u))] * (2 if cls == "lstm" else 1)
-    seq = []
-    for t in range(T):
-      out, st = cell(tf.constant(x[:, t, :]), [state_q(s) for s in st])
-      st = list(st) if isinstance(st, (list, tuple)) else [st]
-      seq.append(np.asarray(out, dtype=np.float32))
-    return [np.stack(seq, axis=1)] + [np.asarray(s, dtype=np.float32) for s in st]
+    W = new_weights()
+    G.W = W
+    Ws = [W] * len(G.cases)      # the weight values in force at each call
+    ckw = {"training": G.forms["training"]} if "training" in G.forms else {}
+    K.set_image_data_format(G.fmts[1])
+    if G.mode == "functional":
+      if model is not None:
+        try:
+          ys = list(model([form_x(x, xform) for x in xs], **ckw))
+          for k_, c in enumerate(G.cases):
+            c.impl = [np.asarray(o, dtype=np.float32) for o in ys[k_ * n_out:(k_ + 1) * n_out]]
+        except Exception as e:  # pylint: disable=broad-except
+          for c in G.cases:
+            catch(c, e)
+    elif G.mode == "dynamic":
+      for c, x in zip(G.cases, xs):
+        if model is not None:
+          try:
+            c.impl = [np.asarray(o, dtype=np.float32) for o in model(form_x(x, xform), **ckw)]
+          except Exception as e:  # pylint: disable=broad-except
+            catch(c, e)
+    else:
+      for c, x in zip(G.cases, xs):
+        if G.reweigh is not None and c.pos == G.reweigh:
+          W = new_weights()
+          Ws = Ws[:c.pos] + [W] * (len(G.cases) - c.pos)
+        try:
+          outs = ql(form_x(x, xform), **ckw)
+          c.impl = [np.asarray(o, dtype=np.float32) for o in outs]      # sequence of h, final h [, final c]
+        except Exception as e:  # pylint: disable=broad-except
+          catch(c, e)
+    rep = ql.get_quantizers()
+    G.reported = [None if r is None else str(r) for r in rep]
+    wq = [q["kernel"], q["recurrent"], q["bias"]][:len(W)]
+    tr = [True, True, False]
+    sq = (lambda t: t) if q["state"] is None else fresh_q(q["state"])
 
-  try:
-    c.oracle = stock_run(QW, sq)
-  except Exception as e:  # pylint: disable=broad-except
-    raise core.InfraError("stock %s cell failed: %s" % (cls, e))
-  c.stock_raw = stock_run(W, lambda t: t)
-  quant = [qspec(s, [w], t) for s, w, t in zip(wq, W, tr)]
-  while len(quant) < 3:
-    quant.append(None if q["bias"] is None else qspec(q["bias"], []))
-  if q["state"] is not None and q["state"] not in SPEC:
-    raise core.InfraError("state quantizer without element-wise model")
-  quant.append(qspec(q["state"]))
-  c.line = {"op": "cell", "cls": cls, "cfg": cfg_of(c), "xs": [tj(x[:, t, :]) for t in range(T)],
-            "states": [tj(np.zeros((B, u), np.float32))] * (2 if cls == "lstm" else 1),
-            "weights": [tj(w) for w in W], "quant": quant, "actv": [qspec(q["act"]), qspec(q.get("ract"))]}
+    def stock_run(cell, x, weights, state_q):
+      B, T = x.shape[0], x.shape[1]
+      cell.build((B, g["in_dim"]))
+      cell.set_weights(weights)
+      st = [tf.zeros((B, u))] * (2 if cls == "lstm" else 1)
+      seq = []
+      for t in range(T):
+        out, st = cell(tf.constant(x[:, t, :]), [state_q(s) for s in st])
+        st = list(st) if isinstance(st, (list, tuple)) else [st]
+        seq.append(np.asarray(out, dtype=np.float32))
+      return [np.stack(seq, axis=1)] + [np.asarray(s, dtype=np.float32) for s in st]
+
+    if q["state"] is not None and q["state"] not in SPEC:
+      raise core.InfraError("state quantizer without element-wise model")
+    G.lines = []
+    for k_, (c, x) in enumerate(zip(G.cases, xs)):
+      c.line_off, c.line_pos = k_, 0
+      W = Ws[k_]
+      QW = [apply_q(s, w, t) for s, w, t in zip(wq, W, tr)]
+      quant = [qspec(s, [w], t) for s, w, t in zip(wq, W, tr)]
+      while len(quant) < 3:
+        quant.append(None if q["bias"] is None else qspec(q["bias"], []))
+      quant.append(qspec(q["state"]))
+      try:
+        c.oracle = stock_run(cells[2 * k_], x, QW, sq)
+      except Exception as e:  # pylint: disable=broad-except
+        raise core.InfraError("stock %s cell failed: %s" % (cls, e))
+      c.stock_raw = stock_run(cells[2 * k_ + 1], x, W, lambda t: t)
+      B, T = x.shape[0], x.shape[1]
+      G.lines.append({"op": "cell", "cls": cls, "cfg": cfg_of(G), "xs": [tj(x[:, t, :]) for t in range(T)],
+                      "states": [tj(np.zeros((B, u), np.float32))] * (2 if cls == "lstm" else 1),
+                      "weights": [tj(w) for w in W], "quant": quant, "actv": [qspec(q["act"]), qspec(q.get("ract"))]})
+  finally:
+    K.set_image_data_format(DEFAULT_FMT)
 
 
-# ----------------------------------------------------------------------------- formerly broken sites
+# ----------------------------------------------------------------------------- recorded sites
 
 def site_of(c):
-  """label of the four sites repaired in /repo (32aca3c, 0736682, d2aee32, c93cc1b); they are part of
-  the generated grid and a regression there is reported under its own key"""
-  if c.cls == "sepconv1d" and c.geo["padding"] == "causal":
+  """label of the four sites repaired in /repo (32aca3c, 0736682, d2aee32, c93cc1b) — part of the generated
+  grid, a regression there is reported under its own key — and of the recorded finding of the unchanged code
+  (QConv1D causal x channels_first)"""
+  g = c.geo
+  if c.cls == "globalavgpool2d" and c.group.mode == "dynamic" and c.q["average"] is not None:
+    return "dynamic-spatial-dims"
+  if c.cls == "avgpool2d" and c.group.mode != "eager" and (c.q["average"] or "").startswith("quantized_po2"):
+    return "po2-average-in-graph"
+  if c.cls == "conv1d" and g["padding"] == "causal" and c.group.df == "channels_first" and g["kernel"] > 1:
+    return "causal-channels-first"
+  if c.cls == "sepconv1d" and c.group.fmts[1] == "channels_first" and \
+      any(is_auto(c.q[s_], True) for s_ in ("depthwise", "pointwise")):
+    # the kernel is quantized AFTER expand_dims(., 0); under the channels_first switch the auto scale of the 4-D
+    # tensor is taken over other axes than that of the stored 3-D kernel
+    return "expanded-kernel-auto-scale"
+  if c.cls == "sepconv1d" and g["padding"] == "causal":
     return "causal-padding-call"
-  if c.cls == "lstm" and not c.geo["use_bias"] and c.q["bias"] is not None:
+  if c.cls == "lstm" and not g["use_bias"] and c.q["bias"] is not None:
     return "bias-quantizer-without-bias"
   if c.cls == "gru" and c.q["recurrent"] is None:
     return "no-recurrent-quantizer"
-  if c.cls == "gru" and c.geo["reset_after"] and c.geo["use_bias"]:
+  if c.cls == "gru" and g["reset_after"] and g["use_bias"]:
     return "reset-after-unstack"
   return None
+
+
+RECORDED_SITES = ("causal-channels-first", "expanded-kernel-auto-scale", "dynamic-spatial-dims", "po2-average-in-graph")
+# symbolic shapes and graph-mode dtypes are outside the Lean model (its tensors are concrete rationals): these sites
+# are mirrored by harness rules — "the pool area of unknown dims is None * None" -> TypeError while the functional
+# model is being built; "1.0 / np.prod(pool_size) is a numpy float64, quantized_po2 mixes it with float32 constants in
+# tf.where" -> TypeError in graph mode (eager mode converts)
+HARNESS_MIRRORED = {"dynamic-spatial-dims": "TypeError", "po2-average-in-graph": "TypeError"}
 
 
 def same(a, b):
@@ -585,133 +1108,210 @@ def same(a, b):
 def run(run: core.Run, tier: str):
   core.assert_repo_import()
   import tensorflow as tf
+  K = tf.keras.backend
   tf.keras.backend.set_learning_phase(0)
+  if K.image_data_format() != DEFAULT_FMT:
+    raise core.InfraError("unexpected initial image_data_format " + K.image_data_format())
   rng = np.random.default_rng(run.seed)
-  cases = gen_cases(rng, tier)
+  Group._n = 0
+  groups = gen_cases(rng, tier) + gen_new(rng, tier)
   run.extra["rule"] = (
       "every class (QDense, QActivation, QConv1D, QConv2D, QSeparableConv1D/2D, QDepthwiseConv2D, "
       "QAveragePooling2D, QGlobalAveragePooling2D, QScaleShift, QSimpleRNN, QLSTM, QGRU) x a fixed grid of "
-      "geometries (units/filters 1-4, kernel 1-3, strides 1-2, padding valid/same/causal, dilation 1-2, groups, "
-      "depth multiplier, use_bias, mask, data_format, implementation 1/2, reset_after) x quantizer choices "
-      "cycled over {quantized_bits, quantized_po2, ternary, binary, auto_po2, None} per slot x seeded "
-      "short-dyadic weights (k/16) and inputs (k/4) so that every float32 sum is exact; non-trivial = "
-      "distinct (class, geometry, quantizers) with at least one quantizer or activation configured")
-  lines, live = [], []
-  for idx, c in enumerate(cases):
-    c.rng = np.random.default_rng([run.seed, idx])
-    c.mask = None
-    if c.cls in ("simplernn", "lstm", "gru"):
-      run_recurrent(c)
-    else:
-      run_feedforward(c)
-    lines.append(c.line)
-    live.append(c)
-    nontriv = any(v is not None for v in c.q.values())
-    run.case(c.label, nontrivial=nontriv,
-             sample={"class": c.cls, "geometry": c.geo, "quantizers": c.q,
-                     "out0": None if c.impl is None else [str(v) for v in fr_list(c.impl[0])[:4]]})
-    run.count("class_" + c.cls)
-    for k in ("padding", "impl", "data_format"):
-      if k in c.geo:
-        run.count("%s_%s" % (k, c.geo[k]))
-    for k, v in (("strides", (2, [2, 2], [2, 1], [1, 2])), ("dilation", (2, [2, 2], [1, 2])), ("groups", (2,)),
-                 ("depth_multiplier", (2,)), ("mask", (True,)), ("reset_after", (True,))):
-      if c.geo.get(k) in v:
-        run.count(k + "_nondefault")
-    if not c.geo.get("use_bias", True):
-      run.count("no_bias")
-    for s, v in c.q.items():
-      run.count("q_%s" % ("none" if v is None else v.split("(")[0] + ("_auto" if v == AUTO else "")))
+      "geometries (units/filters 1-4, kernel 1-3, strides 1-3, padding valid/same/causal, dilation 1-3, groups, "
+      "depth multiplier, use_bias, mask, data_format None/last/first, implementation 1/2, reset_after) x quantizer "
+      "choices cycled over {quantized_bits, quantized_po2, ternary, binary, auto_po2, None} per slot x seeded "
+      "short-dyadic weights (k/16) and inputs (k/4) so that every float32 sum is exact; streams: structured (one "
+      "call per fresh object), reuse (one object called 2-4 times on inputs of different batch / spatial / time "
+      "size / rank, eagerly or shared between the branches of a functional model), format (K.image_data_format "
+      "channels_first while constructing and / or calling, restored afterwards), rank (ranks beyond the minimum, "
+      "batch 1, spatial dims 1, stride > kernel, dilation with same padding, 1-D channels_first), with the "
+      "argument forms (quantizer string / object / used object, kernel size int / tuple / list, input tensor / "
+      "numpy / Variable) rotating; non-trivial = distinct (class, geometry, quantizers, call history position) "
+      "with at least one quantizer or activation configured")
+  lines, index = [], []
+  for gi, G in enumerate(groups):
+    G.rng = np.random.default_rng([run.seed, gi])
+    try:
+      if G.cls in RNN:
+        run_recurrent(G)
+      else:
+        run_feedforward(G)
+    finally:
+      K.set_image_data_format(DEFAULT_FMT)
+    index.append(len(lines))
+    lines += G.lines
+    run.count("groups_" + G.stream)
+    if len(G.cases) > 1:
+      run.count("objects_called_%d_times" % len(G.cases))
+    if G.mode == "functional":
+      run.count("objects_shared_in_functional_model")
+    if G.mode == "dynamic":
+      run.count("objects_in_model_with_unknown_spatial_or_time_dims")
+    if G.reweigh is not None:
+      run.count("objects_with_set_weights_between_calls")
+    if G.fmts != FMTS0:
+      run.count("order_construct_%s_call_%s" % (G.fmts[0][9:], G.fmts[1][9:]))
+    for k, v in G.forms.items():
+      run.count("form_%s_%s" % (k, v))
+    for c in G.cases:
+      if G.skip:
+        run.case(c.label, nontrivial=False)
+        continue
+      nontriv = any(v is not None for v in c.q.values())
+      run.case(c.label, nontrivial=nontriv,
+               sample={"class": c.cls, "geometry": c.geo, "quantizers": c.q, "stream": c.stream,
+                       "out0": None if c.impl is None else [str(v) for v in fr_list(c.impl[0])[:4]]})
+      run.count("class_" + c.cls)
+      run.count("stream_" + c.stream)
+      run.count("input_rank_%d" % c.x.ndim)
+      if c.x.shape[0] == 1:
+        run.count("batch_1")
+      if c.cls not in RNN and c.cls not in ("dense", "activation", "scaleshift") and 1 in c.x.shape[1:]:
+        run.count("spatial_or_channel_dim_1")
+      run.count("data_format_arg_%s" % (c.geo["data_format"] if "data_format" in c.geo else "default"))
+      if c.cls in HAS_DF:
+        run.count("resolved_data_format_" + G.df)
+      for k in ("padding", "impl"):
+        if k in c.geo:
+          run.count("%s_%s" % (k, c.geo[k]))
+      for k, v in (("strides", (2, 3, [2, 2], [2, 1], [1, 2], [3, 3], [3, 2], [1, 3])), ("dilation", (2, 3, [2, 2], [1, 2], [2, 1], [2, 3])),
+                   ("groups", (2,)), ("depth_multiplier", (2,)), ("mask", (True,)), ("reset_after", (True,))):
+        if c.geo.get(k) in v:
+          run.count(k + "_nondefault")
+      if not c.geo.get("use_bias", True):
+        run.count("no_bias")
+      for s, v in c.q.items():
+        run.count("q_%s" % ("none" if v is None else v.split("(")[0] + ("_auto" if v == AUTO else "")))
+  if K.image_data_format() != DEFAULT_FMT:
+    raise core.InfraError("image_data_format not restored")
   outs = core.run_driver("C11", lines)
 
-  for c, o in zip(live, outs):
-    key0 = {"cls": c.cls}
-    site = site_of(c)
-    if site is not None:
-      key0["site"] = site
-      run.count("site_" + site)
-    # ------------------------------------------------------------ model outputs (exact rationals)
-    if c.cls in ("simplernn", "lstm", "gru"):
-      steps = o["steps"]
-      m_ok = all(t.get("ok", True) for S in steps for t in S)
-      T = len(steps)
-      B, u = c.geo["batch"], c.geo["units"]
-      model = None
-      if m_ok:
-        hs = [model_tensor(S[0]) for S in steps]
-        seq = np.empty((B, T, u), dtype=object)
-        for t, h in enumerate(hs):
-          seq[:, t, :] = np.array(h[1], dtype=object).reshape(B, u)
-        model = [([B, T, u], list(seq.ravel()))] + [(model_tensor(t)[0], model_tensor(t)[1]) for t in steps[-1]]
-    else:
-      shp, data, m_ok = model_tensor(o["y"])
-      model = [(shp, data)] if m_ok else None
-    if not o.get("dropin", False) and m_ok:
-      # the instance of the drop-in theorem evaluated by the driver itself must hold
-      if not (c.cls == "sepconv1d" and AUTO in c.q.values()):
-        run.disagree("theorem-instance", c.label, "-", "model's own drop-in equation is false on this instance")
-    # ------------------------------------------------------------ crashes
-    if c.err is not None:
-      run.count("impl_raises_" + c.err[0])
-      run.violate("runs", dict(key0, error=c.err[0]), {"case": c.label, "error": list(c.err)}, mirrored=False)
-      continue
-    if not m_ok:
-      run.disagree("model-rejects", c.label, "runs", "model shape error")
-      continue
-    # ------------------------------------------------------------ tie 1: real layer vs Lean model
-    # bit for bit; where the stock average divides by a non-power-of-two (no average quantizer) the
-    # model's exact quotient is rounded once to binary32 (DESIGN 3.2 device 1: simulate)
-    run.compared += 1
-    bad = []
-    for a_, (mshape, mdata) in zip(c.impl, model):
-      if list(a_.shape) != list(mshape):
-        bad.append(("shape", list(a_.shape), list(mshape)))
-        continue
-      av = fr_list(a_)
-      for i, (iv, mv) in enumerate(zip(av, mdata)):
-        if iv != mv:
-          if c.cls in ("avgpool2d", "globalavgpool2d") and c.q["average"] is None and iv == rnd32(mv):
-            run.count("rounded_quotient_points")
-            continue
-          bad.append((i, str(iv), str(mv)))
-    mirrored = len(c.impl) == len(model) and not bad
-    if not mirrored:
-      run.disagree("layer:" + c.cls, {"case": c.label}, "impl != model", bad[:4])
-    else:
-      run.count("tie1_bit_exact")
-    # ------------------------------------------------------------ tie 2: the property's oracle
-    ok2 = len(c.impl) == len(c.oracle) and all(same(a, b) for a, b in zip(c.impl, c.oracle))
-    run.compared += 1
-    if not ok2:
-      key = dict(key0)
-      diffs = [[(int(i), str(F(float(a.ravel()[i]))), str(F(float(b.ravel()[i]))))
-                for i in np.flatnonzero(a.ravel() != b.ravel())[:3]] if a.shape == b.shape else
-               (str(a.shape), str(b.shape)) for a, b in zip(c.impl, c.oracle)]
-      run.violate("dropin", key, {"case": c.label, "impl_vs_stock_on_quantized_weights": diffs}, mirrored=mirrored)
-    else:
-      run.count("tie2_dropin_holds")
-    # ------------------------------------------------------------ no quantizer configured
-    if all(v is None for k, v in c.q.items() if k not in ("act", "ract")) and c.q.get("act") is None \
-        and c.stock_raw is not None and not c.geo.get("mask"):
-      run.count("no_quantizer_cases")
-      if not all(same(a, b) for a, b in zip(c.impl, c.stock_raw)):
-        run.violate("no_quantizer", key0, {"case": c.label}, mirrored=mirrored)
-    if c.cls in ("simplernn", "lstm", "gru") and all(c.q[k] is None for k in ("kernel", "recurrent", "bias", "state")):
-      run.count("no_quantizer_cases")
-      if not all(same(a, b) for a, b in zip(c.impl, c.stock_raw)):
-        run.violate("no_quantizer", key0, {"case": c.label}, mirrored=mirrored)
-    # ------------------------------------------------------------ tie 3: get_quantizers
-    if c.cls != "activation":
-      slots = SLOTS[c.cls]
-      want = [None if s is None else str(fresh_q(c.q[slots[s]], slots[s] in TRAINABLE.get(c.cls, [])))
-              for s in o["quantizers"]]
+  for G, li in zip(groups, index):
+    rnn = G.cls in RNN
+    # ------------------------------------------------------------ constructor defaults (per object)
+    if G.ctor_df is not None:
       run.compared += 1
-      if c.reported != want:
-        run.disagree("get_quantizers:" + c.cls, c.label, c.reported, want)
-        run.violate("reported", key0, {"case": c.label, "reported": c.reported, "model": want}, mirrored=False)
-      if o["applied"] != o["reported_live"]:
-        run.disagree("applied-vs-reported", c.label, o["applied"], o["reported_live"])
-  run.extra["cases"] = len(cases)
+      if G.ctor_df[0] != G.df:
+        run.disagree("resolved-data-format", G.cases[0].label, G.ctor_df[0], G.df)
+      if G.ctor_df[0] != G.ctor_df[1] or G.skip:
+        key = {"cls": G.cls, "site": "default-data-format", "stream": G.stream}
+        run.violate("ctor_default", key,
+                    {"case": G.cases[0].label, "quantized_layer_data_format": G.ctor_df[0],
+                     "stock_layer_data_format": G.ctor_df[1], "image_data_format_at_construction": G.fmts[0]},
+                    mirrored=(G.ctor_df[0] == G.df))
+      else:
+        run.count("ctor_default_same")
+    if G.skip:
+      continue
+    o_obj = outs[li]
+    for c in G.cases:
+      o_line = outs[li + c.line_off]
+      o = o_line if rnn else o_line["calls"][c.line_pos]
+      key0 = {"cls": c.cls}
+      if c.stream != "structured":
+        key0["stream"] = c.stream
+        if len(G.cases) > 1:
+          key0["call"] = "first" if c.pos == 0 else "later"
+      site = site_of(c)
+      if site is not None:
+        key0["site"] = site
+        run.count("site_" + site)
+      # ------------------------------------------------------------ model outputs (exact rationals)
+      if rnn:
+        steps = o["steps"]
+        m_ok = all(t.get("ok", True) for S in steps for t in S)
+        T = len(steps)
+        B, u = c.geo["batch"], c.geo["units"]
+        model = None
+        if m_ok:
+          hs = [model_tensor(S[0]) for S in steps]
+          seq = np.empty((B, T, u), dtype=object)
+          for t, h in enumerate(hs):
+            seq[:, t, :] = np.array(h[1], dtype=object).reshape(B, u)
+          model = [([B, T, u], list(seq.ravel()))] + [(model_tensor(t)[0], model_tensor(t)[1]) for t in steps[-1]]
+      else:
+        shp, data, m_ok = model_tensor(o["y"])
+        model = [(shp, data)] if m_ok else None
+        if not o_line.get("build_free", False):
+          run.disagree("build-free", c.label, "-", "the layer term mentions a build-time node")
+      if not o.get("dropin", False) and m_ok and site not in RECORDED_SITES:
+        # the instance of the drop-in theorem evaluated by the driver itself must hold
+        if not (c.cls == "sepconv1d" and AUTO in c.q.values()):
+          run.disagree("theorem-instance", c.label, "-", "model's own drop-in equation is false on this instance")
+      # ------------------------------------------------------------ crashes
+      if c.err is not None:
+        run.count("impl_raises_" + c.err[0])
+        # a recorded site is mirrored when the model rejects the same instance (shape error in the term)
+        mir = site in RECORDED_SITES and not m_ok
+        if site in HARNESS_MIRRORED:
+          mir = c.err[0] == HARNESS_MIRRORED[site]
+        elif site in RECORDED_SITES and m_ok:
+          run.disagree("model-accepts", c.label, "raises " + c.err[0], "model evaluates the term")
+        run.violate("runs", dict(key0, error=c.err[0]), {"case": c.label, "error": list(c.err)}, mirrored=mir)
+        continue
+      if not m_ok:
+        run.disagree("model-rejects", c.label, "runs", "model shape error")
+        continue
+      # ------------------------------------------------------------ tie 1: real layer vs Lean model
+      # bit for bit; where the stock average divides by a non-power-of-two (no average quantizer) the
+      # model's exact quotient is rounded once to binary32 (DESIGN 3.2 device 1: simulate)
+      run.compared += 1
+      bad = []
+      for a_, (mshape, mdata) in zip(c.impl, model):
+        if list(a_.shape) != list(mshape):
+          bad.append(("shape", list(a_.shape), list(mshape)))
+          continue
+        av = fr_list(a_)
+        for i, (iv, mv) in enumerate(zip(av, mdata)):
+          if iv != mv:
+            if c.cls in ("avgpool2d", "globalavgpool2d") and c.q["average"] is None and iv == rnd32(mv):
+              run.count("rounded_quotient_points")
+              continue
+            bad.append((i, str(iv), str(mv)))
+      mirrored = len(c.impl) == len(model) and not bad
+      if not mirrored:
+        run.disagree("layer:" + c.cls, {"case": c.label}, "impl != model", bad[:4])
+      else:
+        run.count("tie1_bit_exact")
+      # ------------------------------------------------------------ tie 2: the property's oracle
+      ok2 = len(c.impl) == len(c.oracle) and all(same(a, b) for a, b in zip(c.impl, c.oracle))
+      run.compared += 1
+      if not ok2:
+        key = dict(key0)
+        diffs = [[(int(i), str(F(float(a.ravel()[i]))), str(F(float(b.ravel()[i]))))
+                  for i in np.flatnonzero(a.ravel() != b.ravel())[:3]] if a.shape == b.shape else
+                 (str(a.shape), str(b.shape)) for a, b in zip(c.impl, c.oracle)]
+        run.violate("dropin", key, {"case": c.label, "impl_vs_stock_on_quantized_weights": diffs}, mirrored=mirrored)
+      else:
+        run.count("tie2_dropin_holds")
+      # ------------------------------------------------------------ no quantizer configured
+      if all(v is None for k, v in c.q.items() if k not in ("act", "ract")) and c.q.get("act") is None \
+          and c.stock_raw is not None and not c.geo.get("mask") and not rnn:
+        run.count("no_quantizer_cases")
+        if not all(same(a, b) for a, b in zip(c.impl, c.stock_raw)):
+          run.violate("no_quantizer", key0, {"case": c.label}, mirrored=mirrored)
+      if rnn and all(c.q[k] is None for k in ("kernel", "recurrent", "bias", "state")):
+        run.count("no_quantizer_cases")
+        if not all(same(a, b) for a, b in zip(c.impl, c.stock_raw)):
+          run.violate("no_quantizer", key0, {"case": c.label}, mirrored=mirrored)
+    # ------------------------------------------------------------ tie 3: get_quantizers (per object)
+    if G.cls != "activation":
+      c = G.cases[0]
+      key0 = {"cls": G.cls}
+      if G.stream != "structured":
+        key0["stream"] = G.stream
+      slots = SLOTS[G.cls]
+      want = [None if s is None else str(fresh_q(G.q[slots[s]], slots[s] in TRAINABLE.get(G.cls, [])))
+              for s in o_obj["quantizers"]]
+      run.compared += 1
+      if G.reported != want:
+        run.disagree("get_quantizers:" + G.cls, c.label, G.reported, want)
+        run.violate("reported", key0, {"case": c.label, "reported": G.reported, "model": want}, mirrored=False)
+      if o_obj["applied"] != o_obj["reported_live"]:
+        run.disagree("applied-vs-reported", c.label, o_obj["applied"], o_obj["reported_live"])
+  run.extra["cases"] = sum(len(G.cases) for G in groups)
+  run.extra["objects"] = len(groups)
   run.assumptions.append(
       "exact regime: weights k/16, inputs k/4, quantized activations; every float32 partial sum is exactly "
       "representable, so TF's summation order does not matter (validated by the bit-for-bit ties)")
@@ -719,3 +1319,7 @@ def run(run: core.Run, tier: str):
       "quantizers without an element-wise Lean model (quantized_po2, ternary, binary, auto_po2) enter the concrete "
       "model as the table of the real quantizer's values at the tensors the layer term applies them to "
       "(oracle input, DESIGN 3.2 device 2); the abstract theorems hold for every quantizer function")
+  run.assumptions.append(
+      "histories: the model evaluates `objectCalls` of the layer term over the whole list of calls of one object "
+      "(Props.C11.C11_object_history: = a fresh object per call); the real object is called in that order and every "
+      "call is judged against a fresh stock layer")
